@@ -121,6 +121,13 @@ class TypeEnv:
             for a in f.params:
                 if a.arg == expr.id:
                     return self.resolve_ann(a.annotation, f.module, f.cls)
+            # annotated local: ``block: ByteBlock``
+            for n in walk_no_nested(f.node):
+                if isinstance(n, ast.AnnAssign) and isinstance(n.target, ast.Name) \
+                        and n.target.id == expr.id:
+                    ts = self.resolve_ann(n.annotation, f.module, f.cls)
+                    if ts:
+                        return ts
             if expr.id in aliases:
                 return self.expr_types(aliases[expr.id], f, aliases, depth + 1)
             # enclosing function (nested defs: closures over ir, self ...)
@@ -139,6 +146,22 @@ class TypeEnv:
                 return []
             if p == ("getattr",) and len(expr.args) >= 2:
                 return []
+            if p == ("cls",) and f.cls is not None:
+                return [f.cls]
+            if p and len(p) == 1:
+                # a function nested in f (or in its enclosing function)
+                g: Optional[FuncInfo] = f
+                while g is not None:
+                    for nm, nf in g.nested().items():
+                        if nm == p[0] and nf.node.returns is not None:
+                            return self.resolve_ann(nf.node.returns, f.module, f.cls)
+                    g = g.outer
+            if p and len(p) >= 2 and p[-1] in ("_from_protobuf", "_decode_protobuf"):
+                if p[0] == "cls" and f.cls is not None:
+                    return [f.cls]
+                c0 = self.repo.resolve_name(f.module, ".".join(p[:-1]), f.cls)
+                if c0 is not None:
+                    return [c0]
             fn = expr.func
             if isinstance(fn, ast.Subscript):
                 fn = fn.value
